@@ -255,6 +255,7 @@ fn observe_poling(i: usize, tag: &str, s: &Setup) {
                 "result": match &r_rep { Ok(x) => json!({"ok": true, "x": fx(*x)}), Err(m) => json!({"ok": false, "panic": m}) },
                 "table": table_json(&table)},
     "residual": residual, "zero_index_during_search": zero_index.get(), "g_at_length": g_at_l,
+    "spdc_try_as_optimum": try_as_optimum_json(cs, signal, pump, &PeriodicPoling::On { period: 1e-5 * M, sign: Sign::POSITIVE, apodization: Apodization::Off }),
   }));
 }
 
@@ -474,6 +475,60 @@ fn theta_cost(cs: &CrystalSetup, signal: &SignalBeam, pump: &PumpBeam, theta_s_e
   }
 }
 
+/// phase-matching angles in [0, 90] deg for the setup with the signal's external angle kept at `theta_s_e`: sign changes of the signed
+/// mismatch on a 0.25 deg grid, refined by bisection
+fn scan_roots(cs: &CrystalSetup, signal: &SignalBeam, pump: &PumpBeam, theta_s_e: Angle) -> Vec<Value> {
+  let mut roots: Vec<Value> = Vec::new();
+  let val = |th: f64| match guarded(std::panic::AssertUnwindSafe(|| theta_cost(cs, signal, pump, theta_s_e, th))) {
+    Ok(Some((z, _))) if z.is_finite() => Some(z),
+    _ => None,
+  };
+  for k in 0..360 {
+    let (a, b) = ((k as f64 * 0.25).to_radians(), ((k + 1) as f64 * 0.25).to_radians().min(FRAC_PI_2));
+    if let (Some(za), Some(zb)) = (val(a), val(b)) {
+      if za == 0.0 || za * zb < 0.0 {
+        let (mut lo, mut hi, zlo) = (a, b, za);
+        for _ in 0..70 {
+          let mid = 0.5 * (lo + hi);
+          match val(mid) {
+            Some(zm) => {
+              if zm * zlo > 0.0 {
+                lo = mid
+              } else {
+                hi = mid
+              }
+            }
+            None => break,
+          }
+        }
+        if let Some(z) = val(lo) {
+          roots.push(json!({"theta": fx(lo), "dkz": fx(z)}));
+        }
+      }
+    }
+  }
+  roots
+}
+
+/// SPDC::try_as_optimum on the setup (unpoled or poled base): what it returns, and the mismatch OF THE RETURNED SETUP
+fn try_as_optimum_json(cs: &CrystalSetup, signal: &SignalBeam, pump: &PumpBeam, base: &PeriodicPoling) -> Value {
+  let r = guarded(std::panic::AssertUnwindSafe(|| {
+    let idler0 = IdlerBeam::try_new_optimum(signal, pump, cs, PeriodicPoling::Off).map_err(|e| e.0)?;
+    let spdc = SPDC::new(cs.clone(), signal.clone(), idler0, pump.clone(), 5e-9 * M, 1e-3 * W, 1e-2, base.clone(), 0. * M, 0. * M, 1e-12 * M / V);
+    spdc.try_as_optimum().map_err(|e| e.0)
+  }));
+  match r {
+    Ok(Ok(ret)) => {
+      let z = guarded(std::panic::AssertUnwindSafe(|| dkz(&ret.signal, &ret.pump, &ret.crystal_setup, &ret.pp)));
+      json!({"class": "ok", "crystal_theta": fx(rad(ret.crystal_setup.theta)), "signal_theta": fx(rad(ret.signal.theta_internal())),
+             "signal_phi": fx(rad(ret.signal.phi())), "pp": pp_json(&ret.pp), "length": fx(met(ret.crystal_setup.length)),
+             "dkz": match z { Ok(Ok((z, _))) => fx(z), _ => Value::Null }})
+    }
+    Ok(Err(e)) => json!({"class": "err", "error": e}),
+    Err(m) => json!({"class": "panic", "message": m}),
+  }
+}
+
 fn observe_theta(i: usize, tag: &str, s: &Setup) {
   let Setup { cs, signal, pump, input, .. } = s;
   let length = met(cs.length);
@@ -527,36 +582,18 @@ fn observe_theta(i: usize, tag: &str, s: &Setup) {
       _ => scan.push(Value::Null),
     }
   }
-  // refine every sign change by bisection: a phase-matching angle
-  let mut roots: Vec<Value> = Vec::new();
-  let val = |th: f64| match guarded(std::panic::AssertUnwindSafe(|| theta_cost(cs, signal, pump, theta_s_e, th))) {
-    Ok(Some((z, _))) if z.is_finite() => Some(z),
-    _ => None,
+  // phase-matching angles (sign changes of the signed mismatch refined by bisection), for the setup as given ...
+  let roots = scan_roots(cs, signal, pump, theta_s_e);
+  // ... and for the collinear signal SPDC::try_as_optimum re-aims to (the same scan when the signal is collinear already)
+  let collinear = rad(signal.theta_internal()) == 0.0;
+  let roots_collinear = if collinear {
+    roots.clone()
+  } else {
+    let mut sig0 = signal.clone();
+    sig0.set_angles(0. * RAD, 0. * RAD);
+    scan_roots(cs, &sig0, pump, 0. * RAD)
   };
-  for k in 0..360 {
-    let (a, b) = ((k as f64 * 0.25).to_radians(), ((k + 1) as f64 * 0.25).to_radians().min(FRAC_PI_2));
-    if let (Some(za), Some(zb)) = (val(a), val(b)) {
-      if za == 0.0 || za * zb < 0.0 {
-        let (mut lo, mut hi, zlo) = (a, b, za);
-        for _ in 0..70 {
-          let mid = 0.5 * (lo + hi);
-          match val(mid) {
-            Some(zm) => {
-              if zm * zlo > 0.0 {
-                lo = mid
-              } else {
-                hi = mid
-              }
-            }
-            None => break,
-          }
-        }
-        if let Some(z) = val(lo) {
-          roots.push(json!({"theta": fx(lo), "dkz": fx(z)}));
-        }
-      }
-    }
-  }
+  let tao = try_as_optimum_json(cs, signal, pump, &PeriodicPoling::Off);
   emit(json!({
     "kind": "theta", "i": i, "tag": tag, "input": input, "length": fx(length), "signal_theta_external": fx(rad(theta_s_e)),
     "optimum_theta": match &r_main { Ok(t) => json!({"class": "ok", "value": fx(*t)}), Err(m) => json!({"class": "panic", "message": m}) },
@@ -565,6 +602,7 @@ fn observe_theta(i: usize, tag: &str, s: &Setup) {
                 "result": match &r_rep { Ok(x) => json!({"ok": true, "x": fx(*x)}), Err(m) => json!({"ok": false, "panic": m}) },
                 "table": table_json(&table)},
     "residual": residual, "residual_object": residual_obj, "scan": scan, "roots": roots,
+    "roots_collinear": roots_collinear, "spdc_try_as_optimum": tao,
   }));
 }
 
@@ -610,7 +648,7 @@ fn run_theta(rng: &mut Rng, n: usize) {
       1 => FRAC_PI_2,
       _ => rng.range(0.0, 2.0 * PI),
     };
-    let theta_s = if rng.below(4) == 0 { rng.range(0.0, 0.03) } else { 0.0 };
+    let theta_s = if rng.below(3) == 0 { rng.range(0.002, 0.05) } else { 0.0 };
     let len = rng.range(1e-3, 30e-3);
     let t_c = if rng.coin() { 20.0 } else { rng.range(0.0, 100.0) };
     let s = theta_setup(rng, meta.id, pm, lp, ls, c_phi, theta_s, len, t_c);
